@@ -660,6 +660,12 @@ static int parse_complete(token_t *tok)
         next_token(tok);
         goto modifiers;
 
+    case TOK_CONST:
+    case TOK_VOLATILE:
+        /* qualifiers between the specifiers, e.g. 'unsigned const int' */
+        next_token(tok);
+        goto modifiers;
+
     default:
         break;
     }
@@ -801,6 +807,8 @@ static int parse_complete(token_t *tok)
         }
         next_token(tok);
     }
+    while (tok->kind == TOK_CONST || tok->kind == TOK_VOLATILE)
+        next_token(tok);     /* e.g. 'double const _Complex' */
     if (tok->kind == TOK__COMPLEX)
     {
         if (t1complex == 0)
